@@ -299,9 +299,9 @@ class Ctx:
             shutil.copy(os.path.join(REPO, "go.sum"), os.path.join(d, "go.sum"))
         return mf
 
-    def go_build_test(self, pkg, drivers, race=False, tags="verif"):
-        """Compile the package's test binary with driver files overlaid into it."""
-        key = (pkg, tuple(drivers), race, tags)
+    def go_build_test(self, pkg, drivers, race=False, tags="verif", goarch=None):
+        """Compile the package's test binary with driver files overlaid into it (goarch: for another architecture, e.g. 386)."""
+        key = (pkg, tuple(drivers), race, tags, goarch)
         if key in self._built:
             return self._built[key]
         repl = {}
@@ -322,7 +322,10 @@ class Ctx:
             cmd.append("-race")
         cmd.append("./" + pkg)
         t0 = time.time()
-        p = subprocess.run(cmd, cwd=REPO, env=self._goenv(), stdout=subprocess.PIPE,
+        benv = self._goenv()
+        if goarch:
+            benv = dict(benv, GOARCH=goarch, CGO_ENABLED="0")
+        p = subprocess.run(cmd, cwd=REPO, env=benv, stdout=subprocess.PIPE,
                            stderr=subprocess.STDOUT, text=True, timeout=1200)
         if p.returncode != 0 or not os.path.exists(out):
             raise Infra("go build of driver for %s failed:\n%s" % (pkg, p.stdout[-4000:]))
